@@ -53,6 +53,9 @@ pub struct Menu {
     pub snapshots: bool,
     pub max_snapshots: usize,
     pub joins: bool,
+    /// timed mode: offer `Tick` (time jumps to the next timer deadline) up to this many times
+    #[serde(default)]
+    pub max_ticks: usize,
 }
 
 impl Default for Menu {
@@ -85,6 +88,7 @@ impl Default for Menu {
             snapshots: false,
             max_snapshots: 0,
             joins: false,
+            max_ticks: 0,
         }
     }
 }
@@ -114,6 +118,9 @@ impl Menu {
             return out;
         }
 
+        if c.stuck.is_some() {
+            return out;
+        }
         let hist = &c.history;
         let up = c.up_ids();
         let any_leader = up.iter().any(|i| c.last_views.get(i).map(|v| v.role == RoleKind::Leader).unwrap_or(false));
@@ -233,6 +240,12 @@ impl Menu {
         }
 
         // time
+        if self.max_ticks > 0 {
+            let nt = count(c, hist, |e| matches!(e, Event::Tick));
+            if nt < self.max_ticks && !up.is_empty() {
+                push(&mut out, Event::Tick, 0);
+            }
+        }
         let nadv = count(c, hist, |e| matches!(e, Event::Advance(_)));
         if nadv < self.max_advances {
             for a in &self.advances {
